@@ -44,7 +44,7 @@
 /* ---------------------------------------------------------------- command lines */
 static char vf_a0[] = "e2undo", vf_a_n[] = "-n", vf_a_f[] = "-f", vf_a_z[] = "-z", vf_a_h[] = "-h",
 	vf_a_v[] = "-v", vf_a_o[] = "-o", vf_a_nf[] = "-nf", vf_a_off[] = "4096",
-	vf_a_zf[] = "z", vf_a_u[] = "u", vf_a_dev[] = "dev";
+	vf_a_zf[] = "z", vf_a_u[] = "u", vf_a_u2[] = "u", vf_a_dev[] = "dev";
 #define A_OFFSET_VALUE 4096ULL
 #if ARGS == 0		/* e2undo u dev */
 static char *vf_argv[] = { vf_a0, vf_a_u, vf_a_dev, 0 };
@@ -88,7 +88,7 @@ static char *vf_argv[] = { vf_a0, vf_a_nf, vf_a_v, vf_a_z, vf_a_zf, vf_a_u, vf_a
 #define A_FORCE 1
 #define A_Z 1
 #elif ARGS == 8		/* e2undo -z u u dev : the undo file being replayed is also the -z target */
-static char *vf_argv[] = { vf_a0, vf_a_z, vf_a_u, vf_a_u, vf_a_dev, 0 };
+static char *vf_argv[] = { vf_a0, vf_a_z, vf_a_u2, vf_a_u, vf_a_dev, 0 };
 #define A_DRY 0
 #define A_FORCE 0
 #define A_Z 1
@@ -203,6 +203,16 @@ static __u64 vf_kb_blk[NKB];		/* where the code read key block b */
 static __u64 vf_dr_blk[2 * NKA]; static __u32 vf_dr_len[2 * NKA]; static void *vf_dr_ptr[2 * NKA];
 
 /* ---------------------------------------------------------------- helpers */
+/* a violated environment precondition was just reported: end the path there, so that one defect is reported under ONE label instead of a cascade (natively the failed PROP has already aborted) */
+static void vf_stop(void)
+{
+#ifndef VF_REPLAY
+	__CPROVER_assume(0);
+#endif
+}
+#ifndef NUMKEYS
+#define NUMKEYS NK		/* header.num_keys; only the wrap query sets it apart from the number of modelled keys */
+#endif
 static int vf_buf_ok(const void *p, size_t n)
 {
 	/* is [p, p+n) inside a live object?  CBMC: the built-in predicate; natively: ASan's shadow memory */
@@ -321,8 +331,10 @@ void stub_qsort(void *base, size_t n, size_t sz, int (*cmp)(const void *, const 
 	int i, j;
 
 	PROP(sz == sizeof(struct undo_key_info), "qsort element size is that of undo_key_info");
-	PROP(n <= (size_t) -1 / sizeof(struct undo_key_info) && vf_buf_ok(base, n * sizeof(struct undo_key_info)),
-	     "qsort is given no more elements than undo_ctx.keys holds");
+	if (!(n <= (size_t) -1 / sizeof(struct undo_key_info) && vf_buf_ok(base, n * sizeof(struct undo_key_info)))) {
+		PROP(0, "qsort is given no more elements than undo_ctx.keys holds");
+		vf_stop();
+	}
 	PROP(n <= NK, "qsort count does not exceed the number of keys in the header");
 	for (i = 1; i < NK; i++)
 		for (j = i; j > 0; j--)
@@ -544,7 +556,15 @@ static errcode_t stub_undo_read(unsigned long long block, int count, void *data)
 		/* a key block */
 		struct undo_key_block *kb = data;
 		int kbn = vf_kb_reads++;
-		PROP(kbn < NKB, "no more key blocks are read than header.num_keys requires");
+		/* main() allocated the key array before reading the first key block */
+		if (!(vf_allocs >= 1 && vf_alloc_size[0] / sizeof(struct undo_key_info) >= NUMKEYS)) {
+			PROP(0, "the key array allocation holds header.num_keys entries (no size_t wrap)");
+			vf_stop();
+		}
+		if (!(kbn < NKB)) {
+			PROP(0, "no more key blocks are read than header.num_keys requires");
+			vf_stop();
+		}
 		PROP(vf_buf_ok(data, BSZ), "key block fits its destination buffer");
 #ifdef VF_REPLAY
 		memset(data, 0, BSZ);
@@ -577,7 +597,10 @@ static errcode_t stub_undo_read(unsigned long long block, int count, void *data)
 	}
 	/* key data */
 	n = count < 0 ? (__u32) (-(long long) count) : (__u32) count * (__u32) vf_undo_bs;
-	PROP(vf_buf_ok(data, n), "key data read from the undo file fits the extent buffer (E2UNDO_MAX_EXTENT_BLOCKS * block_size)");
+	if (!vf_buf_ok(data, n)) {
+		PROP(0, "key data read from the undo file fits the extent buffer (E2UNDO_MAX_EXTENT_BLOCKS * block_size)");
+		vf_stop();
+	}
 	PROP(vf_data_reads < 2 * NK, "each key's data is read at most twice (verification, replay)");
 	for (j = 0; j < 2 * NK; j++)
 		if (j == vf_data_reads) {
@@ -757,6 +780,33 @@ errcode_t ext2fs_close_free(ext2_filsys *fs)
 	return 0;
 }
 
+static int ref_sb_matches(void);
+/* ---------------------------------------------------------------- check_filesystem() cut (assume-guarantee) */
+#ifdef CUT_CHECKFS
+/* STUB: check_filesystem() is CUT in this harness and replaced by its specification (verified on the real function by harness undo_checkfs): it switches the device channel to 1024-byte blocks, reads the primary superblock from the device and the copy from the undo file, writes nothing, and returns 0 exactly when the two agree (copy's s_magic inverted) and header.sb_crc matches the checksum of the copy; non-zero on a read error */
+static int vf_checkfs_calls, vf_checkfs_args_ok;
+static int check_filesystem(struct undo_context *ctx, io_channel channel)
+{
+	vf_checkfs_calls++;
+	vf_checkfs_args_ok = (channel == &vf_ch_dev && ctx->undo_file == &vf_ch_undo && ctx->super_block == IN.super_offset &&
+			      ctx->blocksize == BSZ && ctx->hdr.sb_crc == IN.sb_crc);
+	PROP(!vf_dev_closed && vf_dev_opens == 1, "check_filesystem runs on the open device channel");
+	PROP(vf_dev_writes == 0, "the filesystem identity is checked before the first device write");
+	vf_dev_bs = SUPERBLOCK_OFFSET;
+	vf_ch_dev.block_size = SUPERBLOCK_OFFSET;
+	vf_dev_reads++;
+	vf_dev_sb_reads++;
+	vf_sbcopy_reads++;
+#ifdef VF_FAULTS
+	if (IN.rdfail_dev & 1)
+		return EXT2_ET_SHORT_READ;
+	if (IN.rdfail_undo & 2)
+		return EXT2_ET_SHORT_READ;
+#endif
+	return ref_sb_matches() ? 0 : -1;
+}
+#endif
+
 /* ---------------------------------------------------------------- input -> file image */
 static void vf_build_file(void)
 {
@@ -769,7 +819,7 @@ static void vf_build_file(void)
 	for (i = 0; i < 8; i++)
 		vf_hdr.magic[i] = IN.magic[i];
 #endif
-	vf_hdr.num_keys = NK;			/* BOUND: concrete per query */
+	vf_hdr.num_keys = NUMKEYS;		/* BOUND: concrete per query */
 	vf_hdr.block_size = BSZ;		/* BOUND: concrete per query */
 	vf_hdr.super_offset = IN.super_offset;
 	vf_hdr.key_offset = IN.key_offset;
